@@ -184,12 +184,12 @@ def build(tpl, fn):
     return {k: (build(v, fn) if isinstance(v, dict) else fn(v)) for k, v in tpl.items()}
 
 
-def make_data(rng, tpl, form, N, uniform, allow_empty=False):
+def make_data(rng, tpl, form, N, uniform, allow_empty=False, force_empty=False):
     if form == "list":
         out = [build(tpl, lambda t: leaf_for_sample(rng, t)) for _ in range(N)]
         # a sample without any field is a sample too (never the first one of a channel: the writer takes the channel's
         # field names from it)
-        if allow_empty and not uniform and rng.random() < 0.2:
+        if allow_empty and not uniform and (force_empty or rng.random() < 0.2):
             out[rng.randrange(N)] = {}
         return out
     if form == "single":
@@ -331,6 +331,9 @@ def random_c12(digital_rf, root, rng, name):
             stored |= dup_call(w, rng, tpl, stored, uniform)
         else:
             form = rng.choice(["single", "dict", "dict", "list"])
+            want_empty = bool(stored) and not uniform and not w.sparse and c >= ncalls // 2
+            if want_empty:
+                form = "list"        # every second non-uniform scenario holds a sample without fields
             N = 1 if form == "single" else rng.choice([1, 2, 2, 3, 3, 4, 6])
             if not stored and rng.random() < 0.5:
                 top = rng.choice(cfg.bound[:-1]) + rng.choice([-1, 0, 0, 1]) - 1   # start on / around a file boundary
@@ -340,7 +343,8 @@ def random_c12(digital_rf, root, rng, name):
                 break
             if form == "single":
                 idxs = idxs[:1]
-            ev = w.write(form, idxs, make_data(rng, tpl, form, len(idxs), uniform, allow_empty=bool(stored)))
+            ev = w.write(form, idxs, make_data(rng, tpl, form, len(idxs), uniform, allow_empty=bool(stored),
+                                               force_empty=want_empty and rng.random() < 0.5))
             if ev["resp"] == "ok":
                 stored |= set(idxs)
             else:
@@ -384,6 +388,9 @@ def random_c20(digital_rf, root, rng, name):
                 stored |= dup_call(w, rng, tpl, stored, uniform)
             else:
                 form = rng.choice(["single", "dict", "list"])
+                want_empty = bool(stored) and not uniform and not w.sparse and len(stored) >= 2
+                if want_empty:
+                    form = "list"
                 N = 1 if form == "single" else rng.choice([1, 2, 3])
                 if stored and rng.random() < 0.3:
                     # C20 speaks of all interleavings of write calls: a call may also fill in indices below what is stored
@@ -391,7 +398,8 @@ def random_c20(digital_rf, root, rng, name):
                     top = rng.randint(-1, max(stored) - 1)
                 idxs = [k for k in next_indices(rng, cfg, top, N) if k not in stored]
                 if idxs:
-                    ev = w.write(form, idxs, make_data(rng, tpl, form, len(idxs), uniform, allow_empty=bool(stored)))
+                    ev = w.write(form, idxs, make_data(rng, tpl, form, len(idxs), uniform, allow_empty=bool(stored),
+                                                       force_empty=want_empty and rng.random() < 0.5))
                     stored |= set(idxs) if ev["resp"] == "ok" else set(ev["stored"])
         elif r < 0.75:
             w.rf_write(rng.choice([1, rng.randint(1, cap), cap, cap + 1, 2 * cap + 1]))
